@@ -130,10 +130,19 @@ int main(int argc, char **argv) {
   std::string f6 = writeImage("p6.bin", p6);
   alarm(60); g_phase = "a run reading a stream file";
   int a6 = runOn(0xA5, f6, 1000, o), b6 = runOn(0x00, f6, 1000, o), c6 = runOn(0x01, f6, 1000, o);
+  // (7) the same stream read twice: the second read is at end of file and must deliver 255 (the reference simulator's value
+  //     for end of input), whatever the host memory holds
+  std::vector<uint8_t> p7 = {0x97, 0, 0, 0, 100, 0, 0, 0,
+     0x11, 0xE1, 0xE0, 0x30, 0x82, 0x32, 0xD3,                             // read stream 256 -> mem[sp+1]
+     0x11, 0xE1, 0xE0, 0x30, 0x82, 0x32, 0xD3,                             // read it again (end of file)
+     0x01, 0x61, 0x11, 0x82, 0x30, 0xD3};                                  // exit(mem[sp+1])
+  std::string f7 = writeImage("p7.bin", p7);
+  int a7 = runOn(0xA5, f7, 1000, o), b7 = runOn(0x00, f7, 1000, o), c7 = runOn(0x5C, f7, 1000, o);
   // (5) every word outside the loaded image is zero after construction over dirty storage + load (whole array scanned)
   long s5 = scanOn(0xA5, f1, (p1.size() + 3) / 4);
   std::string why;
   if (a6 != b6 || a6 != c6 || a6 != 'a') why = "a byte read from a stream file (simin1 = 'a') depends on host memory: exit values " + std::to_string(a6) + ", " + std::to_string(b6) + ", " + std::to_string(c6) + " over 0xA5 / 0x00 / 0x01 storage";
+  else if (a7 != b7 || a7 != c7 || a7 != 255) why = "a read at the end of a stream file does not deliver 255 or depends on host memory: exit values " + std::to_string(a7) + ", " + std::to_string(b7) + ", " + std::to_string(c7);
   else if (lim_off != lim_on) why = "a run cut short by --max-cycles returns a different status with tracing on";
   else if (s5 >= 0) why = "memory word " + std::to_string(s5) + " outside the loaded image is not zero after construction over dirty storage (reads of it depend on host memory)";
   else if (threw || t_off != t_on || e_off != e_on || c_off != c_on) why = "enabling tracing changes exit value, echoed bytes or input consumption of a program using the read call";
